@@ -17,7 +17,7 @@ RULE = (
 )
 ASSUMPTIONS = ["'has a templating or parsing error' is measured by an unsuppressed baseline lint of the same text (disable_noqa, no ignore, no warnings)"]
 BOUND = {"quick": "all 5x4x6x2 combinations (error-free ones only unsuppressed) + warnings/loop-limit axes, 7 entry points each", "thorough": "same"}
-FLOOR = {"quick": 100, "thorough": 100}
+FLOOR = {"quick": 60, "thorough": 60}
 CHUNK = 1
 
 
